@@ -615,7 +615,9 @@ fn layouts_all(n: usize) -> Vec<Vec<bool>> {
 // =================================================================================================
 // family 2b: RESOLVE — the constructs on a tree with files inside and sentinels outside
 
-const CONSTRUCTS: [&str; 6] = ["include", "incbin", "incbinstr", "inchexstr", "incbin as a rule argument", "incbin as a sub-rule operand"];
+const CONSTRUCTS: [&str; 8] = ["include", "incbin", "incbinstr", "inchexstr", "incbin as a rule argument", "incbin as a sub-rule operand", "incbin through a user function", "incbin inside an #assert"];
+/// the function for "incbin through a user function" stands at the top of the ROOT file as well
+const FN_DEF: &str = "#fn load(n) => incbin(n)\n";
 /// rules for the last two constructs; they stand at the top of the ROOT file, so that for the including position
 /// "sub/inc.asm included from main.asm" the rule is defined in another directory than the line that uses it: the path
 /// is still relative to the file that contains the call
@@ -648,7 +650,7 @@ fn is_sentinel(b: u8) -> bool {
 fn payload(construct: usize, b: u8) -> Vec<u8> {
     match CONSTRUCTS[construct] {
         "include" => format!("#d8 0x{:02x}\n", b).into_bytes(),
-        "incbin" | "incbin as a rule argument" | "incbin as a sub-rule operand" => vec![b],
+        "incbin" | "incbin as a rule argument" | "incbin as a sub-rule operand" | "incbin through a user function" | "incbin inside an #assert" => vec![b],
         "incbinstr" => format!("{:08b}", b).into_bytes(),
         "inchexstr" => format!("{:02x}", b).into_bytes(),
         _ => unreachable!(),
@@ -660,6 +662,8 @@ fn construct_text(construct: usize, rel: &str) -> String {
         "include" => format!("#include {}\n", lit(rel)),
         "incbin as a rule argument" => format!("emitv incbin({})\n", lit(rel)),
         "incbin as a sub-rule operand" => format!("ldo incbin({})\n", lit(rel)),
+        "incbin through a user function" => format!("#d load({})\n", lit(rel)),
+        "incbin inside an #assert" => format!("#assert incbin({r}) == incbin({r})\n#d incbin({r})\n", r = lit(rel)),
         f => format!("#d {}({})\n", f, lit(rel)),
     };
     format!("#d8 0xa5\n{}#d8 0x5a\n", inner)
@@ -699,11 +703,11 @@ fn judge_resolve(c: &ResolveCase, real: Option<(&RealEnv, &Path, u64)>, l: &mut 
     };
     let text = construct_text(c.construct, &c.rel);
     let (root, holder, mut inc_files) = includer_files(c.includer, &tag, &text);
-    if c.construct >= 4 {
-        // the rules go to the top of the root file
+    if c.construct >= 4 && c.construct <= 6 {
+        // the rules / the function go to the top of the root file
         for f in inc_files.iter_mut() {
             if f.0 == root {
-                let mut t = ARG_RULES.as_bytes().to_vec();
+                let mut t = if c.construct == 6 { FN_DEF } else { ARG_RULES }.as_bytes().to_vec();
                 t.extend(f.1.iter());
                 f.1 = t;
             }
